@@ -68,6 +68,43 @@ pub fn luau_path_locator_find(
         .map_err(|err| err.to_string())
 }
 
+/// One `RequirePathLocator` answers every `(require, source)` pair of `calls`, in order
+/// (bundling keeps a single locator for a whole run).
+pub fn path_locator_find_sequence(
+    mode: &PathRequireMode,
+    project_location: &Path,
+    resources: &Resources,
+    calls: &[(PathBuf, PathBuf)],
+) -> Vec<Result<PathBuf, String>> {
+    let locator = crate::rules::require::RequirePathLocator::new(mode, project_location, resources);
+    calls
+        .iter()
+        .map(|(require, source)| {
+            locator
+                .find_require_path(require.clone(), source)
+                .map_err(|err| err.to_string())
+        })
+        .collect()
+}
+
+/// One `LuauPathLocator` answers every `(require, source)` pair of `calls`, in order.
+pub fn luau_path_locator_find_sequence(
+    mode: &LuauRequireMode,
+    project_location: &Path,
+    resources: &Resources,
+    calls: &[(PathBuf, PathBuf)],
+) -> Vec<Result<PathBuf, String>> {
+    let locator = crate::rules::require::LuauPathLocator::new(mode, project_location, resources);
+    calls
+        .iter()
+        .map(|(require, source)| {
+            locator
+                .find_require_path(require.clone(), source)
+                .map_err(|err| err.to_string())
+        })
+        .collect()
+}
+
 pub fn is_valid_identifier(identifier: &str) -> bool {
     crate::process::utils::is_valid_identifier(identifier)
 }
